@@ -40,6 +40,8 @@ type Obligation struct {
 	SMTSize int
 	SMTFile string
 	Inputs  []*Term // input variables worth reporting from a model
+	Cut     map[*Term]bool // defined symbols whose definitions are left out (treated as arbitrary)
+	Repl    map[*Term]*Term // terms generalised to fresh symbols throughout this obligation (facts and goal)
 }
 
 type VC struct {
@@ -293,6 +295,21 @@ func (p *Prelude) selectBlocks(used map[string]bool, axiomTriggers map[string]bo
 func (o *Obligation) emit(p *Prelude, noCOI bool, mode string) string {
 	lean := mode != "full"
 	facts := o.facts[:o.NFacts]
+	if len(o.Repl) > 0 {
+		// generalisation: (facts[T] => goal[T]) follows from (facts[y] => goal[y]) for a fresh y
+		nf := make([]Fact, len(facts))
+		for i, f := range facts {
+			if f.Def != nil && o.Repl[f.Def] != nil {
+				nf[i] = Fact{T: True} // the definition of a generalised symbol is dropped
+				continue
+			}
+			nf[i] = Fact{T: Replace(f.T, o.Repl), Def: f.Def}
+			if f.Def != nil && (nf[i].T.Op != "=" || nf[i].T.Args[0] != f.Def) {
+				nf[i].Def = nil
+			}
+		}
+		facts = nf
+	}
 	// cone of influence
 	need := map[*Term]bool{}
 	funs := map[string]bool{}
@@ -311,7 +328,7 @@ func (o *Obligation) emit(p *Prelude, noCOI bool, mode string) string {
 	}
 	defIdx := map[*Term]int{}
 	for i, f := range facts {
-		if f.Def != nil {
+		if f.Def != nil && !o.Cut[f.Def] {
 			defIdx[f.Def] = i
 		}
 	}
